@@ -599,7 +599,9 @@ def value_grid_programs(export=("ExportJson", "ExportProvn")):
         vs += [["lit", "x", ["qn", "ex", EXU, "T"], "none"], ["lit", "x", ["qn", "zz", ZZ, "T"], "none"],
                ["lit", "tok", ["qn", "xsd", XSDU, "token"], "none"], ["lit", "5", ["qn", "xsd", XSDU, "int"], "none"],
                ["lit", "abc", ["qn", "xsd", XSDU, "dateTime"], "none"], ["lit", "yes", ["qn", "xsd", XSDU, "boolean"], "none"],
-               ["lit", "0.5", ["qn", "xsd", XSDU, "double"], "none"], ["lit", "http://u/y", ["qn", "xsd", XSDU, "anyURI"], "none"]]
+               ["lit", "0.5", ["qn", "xsd", XSDU, "double"], "none"], ["lit", "http://u/y", ["qn", "xsd", XSDU, "anyURI"], "none"],
+               ["lit", "", ["qn", "xsd", XSDU, "string"], "none"], ["lit", "", ["qn", "xsd", XSDU, "anyURI"], "none"],
+               ["lit", "x", ["qn", "xsd", XSDU, "string"], "none"]]
         if dflt:
             vs += [["qn", "", dflt, "dv"], ["lit", "x", ["qn", "", dflt, "DT"], "none"]]
         return vs
@@ -659,6 +661,8 @@ def subtype_programs(export=("ExportJson", "ExportProvn")):
             rec(kind, [subs[i], subs[(i + 1) % len(subs)]])
             rec(kind, [subs[i]], extra=[["qn", "ex", EXU, "Custom"]])
             rec(kind, [subs[i]], extra=[["str", "prov:" + subs[i]]])
+            rec(kind, [], extra=[["id", PROV + subs[i]]])
+            rec(kind, [subs[i]], extra=[["id", PROV + subs[i]]])
         rec(kind, subs)
         other = [t for k2, ss in fam.items() if k2 != kind for t in ss]
         for t in other[:4]:
